@@ -277,6 +277,7 @@ class VM:
         self.solver_calls = 0
         self.steps_total = 0
         self.unknowns = 0
+        self.unknown_branches = 0
         self._const_cache = {}
         self.reset_path([])
 
@@ -348,7 +349,17 @@ class VM:
             self.pos += 1
             self.add_pc(simp[k])
             return k
-        feas = [k for k in live if self._check(simp[k]) == z3.sat]
+        feas = []
+        for k in live:
+            try:
+                if self._check(simp[k]) == z3.sat:
+                    feas.append(k)
+            except Unmodelled:
+                # the solver could not decide this branch in time: explore it anyway. Over-approximating the feasible
+                # paths is sound - an infeasible path can only add a counterexample that fails its native replay
+                # (inconclusive), never hide one; oracle checks still need a definite answer.
+                self.unknown_branches += 1
+                feas.append(k)
         if not feas:
             self.paths_infeasible += 1
             raise PathEnd()
@@ -392,8 +403,11 @@ class VM:
             raise PathEnd()
         self.add_pc(c)
         if self.pos >= len(self.prefix):
-            if self._check() != z3.sat:
-                raise PathEnd()
+            try:
+                if self._check() != z3.sat:
+                    raise PathEnd()
+            except Unmodelled:
+                self.unknown_branches += 1   # undecided assumption: keep the path (over-approximation, see choose())
 
     def check(self, cond, msg, info=None):
         """property assertion: violated if path condition AND NOT cond is satisfiable"""
@@ -407,12 +421,55 @@ class VM:
         self.solver.push()
         self.solver.add(z3.Not(c))
         try:
-            r = self._check()
+            try:
+                r = self._check()
+            except Unmodelled:
+                # undecided within the time limit: retry against the path condition WITHOUT its float-arithmetic-heavy
+                # conjuncts (a weaker condition = more candidate counterexamples). A model found this way may be
+                # spurious; like every counterexample it only counts if its native replay fails.
+                m = self._approx_model(z3.Not(c))
+                if m is None:
+                    raise
+                raise Violation(msg + " [counterexample from a relaxed path condition]", m, info)
             if r == z3.sat:
                 m = self.solver.model()
                 raise Violation(msg, m, info)
         finally:
             self.solver.pop()
+
+    _HEAVY = None
+
+    def _is_heavy(self, e, seen=None):
+        """does the term contain float multiplication / division / sqrt / fma / rounding or an uninterpreted function"""
+        heavy_kinds = (z3.Z3_OP_FPA_MUL, z3.Z3_OP_FPA_DIV, z3.Z3_OP_FPA_SQRT, z3.Z3_OP_FPA_FMA, z3.Z3_OP_FPA_REM,
+                       z3.Z3_OP_FPA_ROUND_TO_INTEGRAL, z3.Z3_OP_UNINTERPRETED)
+        seen = seen if seen is not None else set()
+        stack = [e]
+        while stack:
+            x = stack.pop()
+            if x.get_id() in seen:
+                continue
+            seen.add(x.get_id())
+            if z3.is_app(x):
+                k = x.decl().kind()
+                if k in heavy_kinds and (k != z3.Z3_OP_UNINTERPRETED or x.num_args() > 0):
+                    return True
+                stack.extend(x.children())
+        return False
+
+    def _approx_model(self, extra):
+        s2 = z3.Solver()
+        s2.set("timeout", self.timeout_ms)
+        for c in self.pc:
+            if not self._is_heavy(c):
+                s2.add(c)
+        if not self._is_heavy(extra):
+            s2.add(extra)
+        t = time.time()
+        r = s2.check()
+        self.solver_time += time.time() - t
+        self.solver_calls += 1
+        return s2.model() if r == z3.sat else None
 
     def model(self):
         if self._check() == z3.sat:
@@ -479,6 +536,17 @@ class VM:
                  "f32::INFINITY": z3.fpPlusInfinity(F32), "f32::NEG_INFINITY": z3.fpMinusInfinity(F32)}
         if t in known:
             return known[t]
+        mc = re.match(r'^(?:std|core)::(f32|f64)::consts::(\w+)$', t)
+        if mc:
+            import math
+            table = {'PI': math.pi, 'TAU': 2 * math.pi, 'FRAC_PI_2': math.pi / 2, 'FRAC_PI_3': math.pi / 3, 'FRAC_PI_4': math.pi / 4, 'FRAC_PI_6': math.pi / 6,
+                     'FRAC_PI_8': math.pi / 8, 'FRAC_1_PI': 1 / math.pi, 'FRAC_2_PI': 2 / math.pi, 'E': math.e, 'SQRT_2': math.sqrt(2), 'FRAC_1_SQRT_2': 1 / math.sqrt(2),
+                     'LN_2': math.log(2), 'LN_10': math.log(10)}
+            if mc.group(2) in table:
+                if mc.group(1) == 'f32':
+                    import numpy as _np
+                    return z3.FPVal(float(_np.float32(table[mc.group(2)])), F32)
+                return z3.FPVal(table[mc.group(2)], F64)
         mk_ = re.match(r'^core::(f32|f64|u8|u16|u32|u64|usize|i8|i16|i32|i64|isize|i128|u128)::<impl \1>::(MAX|MIN|EPSILON|INFINITY|NEG_INFINITY|NAN)$', t)
         if mk_:
             ty, what = mk_.group(1), mk_.group(2)
